@@ -294,7 +294,9 @@ pub fn gen_scen(rng: &mut Rng, _thorough: bool) -> Scen {
             // interrupt
             let mut sc = base_scen("sigint");
             sc.opts = vec![s("--num-concurrent"), nc.to_string()];
-            sc.plan = json!({"default": {"wait": true, "value_of_seed": "neg", "fork": *rng.pick(&["none", "keep"]), "fork_ignore_term": true, "ignore_term": rng.chance(1, 2)}});
+            // (a child whose background process keeps the stdout pipe open never completes: the one that is released does not fork)
+            sc.plan = json!({"default": {"wait": true, "value_of_seed": "neg", "fork": *rng.pick(&["none", "keep"]), "fork_ignore_term": true, "ignore_term": rng.chance(1, 2)},
+                             "seeds": {"0": {"wait": true, "value_of_seed": "neg", "ignore_term": rng.chance(1, 2)}}});
             let early = rng.chance(1, 2);
             sc.script = if early { vec![Step::WaitStarts(nc), Step::Release(0), Step::WaitStarts(nc + 1), Step::SigInt] } else { vec![Step::WaitStarts(nc), Step::SigInt] };
             sc.expect = json!({"exit": if early { "ok" } else { "fail" }, "survivors": 0, "maxConcurrent": nc});
@@ -310,10 +312,16 @@ pub fn gen_scen(rng: &mut Rng, _thorough: bool) -> Scen {
             let failing = rng.below(nc as u64);
             let mut seeds = serde_json::Map::new();
             seeds.insert(failing.to_string(), bad);
+            // in half of the cases the failure comes AFTER an accepted result: a sibling (which does not fork, so that its
+            // evaluation can complete) is released first and its successor is awaited
+            let good_first = rng.chance(1, 2);
+            let good = (failing + 1) % nc as u64;
+            if good_first { seeds.insert(good.to_string(), json!({"wait": true, "value_of_seed": "neg"})); }
             sc.plan = json!({"default": {"wait": true, "value_of_seed": "neg", "fork": *rng.pick(&["none", "keep"]), "fork_ignore_term": rng.chance(1, 2)}, "seeds": seeds});
             // after the failure has had ample time to be handled (the run is over by then on a correct tree) everything
             // else is released, so that a run which wrongly goes on ends by its budget rather than by the watchdog
-            sc.script = vec![Step::WaitStarts(nc), Step::Release(failing), Step::SleepMs(400), Step::ReleaseAllUntilExit];
+            sc.script = if good_first { vec![Step::WaitStarts(nc), Step::Release(good), Step::WaitStarts(nc + 1), Step::Release(failing), Step::SleepMs(400), Step::ReleaseAllUntilExit] }
+                        else { vec![Step::WaitStarts(nc), Step::Release(failing), Step::SleepMs(400), Step::ReleaseAllUntilExit] };
             sc.out_dir = *rng.pick(&[0, 1]);
             sc.expect = json!({"exit": "fail", "survivors": 0, "stdoutLines": 0, "diagFiles": sc.out_dir == 1, "maxStartsAfterFailure": nc});
             sc
